@@ -6,7 +6,7 @@ An op is a literal tuple; ``apply(t, op)`` calls the real method on the real tie
 """
 import itertools
 
-from mc.props.common import IT, PT, constants
+from mc.props.common import IT, PT, constants, fresh
 
 Interval = constants.Interval
 Point = constants.Point
@@ -33,10 +33,10 @@ OTHERS_P_DEC = (
     ("P", "o", 0.1, 2.3, ()),
 )
 
-CROP_MODES = ("strict", "lax", "truncated")
-ERASE_MODES = ("truncate", "categorical", "error")
-SPACE_MODES = ("stretch", "split", "no_change", "error")
-INS_MODES = ("error", "replace", "merge")
+CROP_MODES = fresh(("strict", "lax", "truncated"))
+ERASE_MODES = fresh(("truncate", "categorical", "error"))
+SPACE_MODES = fresh(("stretch", "split", "no_change", "error"))
+INS_MODES = fresh(("error", "replace", "merge"))
 
 
 def menu(state, V, durs, offs, maxdiff=0.5, n_others=3):
@@ -67,6 +67,11 @@ def menu(state, V, durs, offs, maxdiff=0.5, n_others=3):
         for a in V:
             for m in INS_MODES:
                 yield ("insert", a, m)
+    if isI:
+        # the reporting mode 'error' is accepted by the option check as well: replace / merge then raise AFTER editing
+        for a, b in ((V[0], V[2]), (V[1], V[3]), (V[2], V[4])):
+            for m in INS_MODES[1:]:
+                yield ("inserterr", a, b, m)
     for i in range(min(len(entries), 2)):
         yield ("delete", i)
     for i in range(n_others):
@@ -102,6 +107,9 @@ def apply(t, op, others):
         else:
             t.insertEntry((op[1], " n ") if op[2] == "replace" else Point(op[1], "n"), op[2], "silence")
         return t
+    if k == "inserterr":
+        t.insertEntry(Interval(op[1], op[2], "n"), op[3], "error")
+        return t
     if k == "delete":
         t.deleteEntry(t.entries[op[1]])
         return t
@@ -128,7 +136,7 @@ def apply(t, op, others):
 
 
 def is_mutator(op):
-    return op[0] in ("insert", "delete")
+    return op[0] in ("insert", "inserterr", "delete")
 
 
 def snippet(state, op, others_states):
@@ -149,6 +157,7 @@ def snippet(state, op, others_states):
         "insert": lambda: (f"t.insertEntry(Interval({op[1]!r}, {op[2]!r}, 'n'), {op[3]!r}, 'silence'); r = t" if len(op) == 4
                            else f"t.insertEntry(Point({op[1]!r}, 'n'), {op[2]!r}, 'silence'); r = t"),
         "delete": lambda: f"t.deleteEntry(t.entries[{op[1]}]); r = t",
+        "inserterr": lambda: f"t.insertEntry(Interval({op[1]!r}, {op[2]!r}, 'n'), {op[3]!r}, 'error'); r = t",
         "new": lambda: "r = t.new()",
         "newname": lambda: "r = t.new(name='u')",
         "union": lambda: "r = t.union(o)", "append": lambda: "r = t.appendTier(o)",
